@@ -132,6 +132,14 @@ CHECKS['C11'] = dict(
     note='trusted: TLC, RecordReader.tla, Trace_C11.tla; RDKit for layouts and as the other program; files with no record are outside the replayed model; RDF reader state machine not modelled separately',
     technique='TLA+ record-reader state machine model checked + TLC behaviours replayed on real files; TLC validation of recorded format round trips',
     design='5/C11')
+CHECKS['C19'] = dict(
+    text='Fresh interpreter processes with different PYTHONHASHSEED values compute canonical strings, atom orders, ring sets, components, '
+         'fingerprint hash sets and bit sets, substructure match lists (as ordered lists and filtered), canonicalize / standardize results and pack '
+         'bytes for the same inputs, each on the first call, the cached call and on a copy; the event streams are merged by (input, view) and TLC '
+         'requires one value per (input, view).',
+    note='trusted: TLC, Determinism.tla; hash(molecule) is excluded (Python randomises string hashes per process by design); no ordering between processes is assumed',
+    technique='TLC validation of merged multi-process observation traces against a one-value-per-(input, view) specification',
+    design='5/C19')
 PENDING = {}
 
 
